@@ -70,18 +70,32 @@ def first_char_source(v, STATE):
     return False
 
 
+def highbit_preserving(e, x):
+    """Is e = f(x) for a byte function f with f(b) >= 0x80 <=> b >= 0x80 ?  Returns 'lower' for
+    to_ascii_lowercase (which additionally fixes every non-ASCII byte), 'highbit' for other such maps."""
+    if is_call(e, "to_ascii_lowercase") and len(e[2]) == 1 and e[2][0] == x:
+        return "lower"
+    if is_call(e, "to_ascii_uppercase") and len(e[2]) == 1 and e[2][0] == x:
+        return "highbit"
+    if e[0] == "binop" and e[1] in ("BitOr", "BitXor") and e[2] == x and e[3][0] == "const" and isinstance(e[3][2], int) and e[3][2] < 0x80:
+        return "highbit"
+    if e[0] == "binop" and e[1] == "BitAnd" and e[2] == x and e[3][0] == "const" and isinstance(e[3][2], int) and e[3][2] >= 0x80:
+        return "highbit"
+    return None
+
+
 def closure_is_lowercase(cx, crate, clo):
-    """λ(b) = b.to_ascii_lowercase()"""
+    """λ(b) = b.to_ascii_lowercase()  (or another high-bit-preserving byte map): 'lower' | 'highbit' | None"""
     if clo[0] != "closure":
-        return False
+        return None
     b = cx.body(crate, clo[1])
     if b is None:
-        return False
+        return None
     ds = b.defs.get(0, [])
-    if len(ds) != 1 or ds[0][2] != "call":
-        return False
-    e = norm(b.expr_call(ds[0][3]))
-    return is_call(e, "to_ascii_lowercase") and len(e[2]) == 1 and e[2][0] == ("param", 2)
+    if len(ds) != 1:
+        return None
+    e = norm(b.expr_call(ds[0][3]) if ds[0][2] == "call" else b.expr_rv(ds[0][3]))
+    return highbit_preserving(e, ("param", 2))
 
 
 class LenProof:
@@ -136,16 +150,27 @@ class LenProof:
                     a, bb = bb, a
                 if not (is_call(a, "bytes") and a[2][0] == v):
                     return False
-                if not (is_call(bb, "take") and len(bb[2]) == 2 and bb[2][1] == L):
+                # take(len(v)) and map(fold) in either order around bytes(s)
+                cur, took, clo = bb, False, None
+                for _ in range(2):
+                    if is_call(cur, "take") and len(cur[2]) == 2 and cur[2][1] == L and not took:
+                        took = True
+                        cur = cur[2][0]
+                    elif is_call(cur, "map") and len(cur[2]) == 2 and clo is None:
+                        clo = cur[2][1]
+                        cur = cur[2][0]
+                if not took or clo is None:
                     return False
-                m = bb[2][0]
-                if not (is_call(m, "map") and len(m[2]) == 2):
+                if not (is_call(cur, "bytes") and is_state_s(cur[2][0], S)):
                     return False
-                src, clo = m[2]
-                if not (is_call(src, "bytes") and is_state_s(src[2][0], S)):
-                    return False
-                return closure_is_lowercase(self.cx, self.crate, clo)
+                kind = closure_is_lowercase(self.cx, self.crate, clo)
+                self._fold_kind = kind
+                return kind is not None
             if self.has(insens, True):
+                if getattr(self, "_fold_kind", None) == "highbit":
+                    # a fold that may change non-ASCII bytes: every matched input byte is ASCII only if v is
+                    self.external.append(("Ascii", mir.show(v)))
+                    return True, "len(v) under bytes(v) == take(map(bytes(s), high-bit-preserving fold), len(v)) [needs Ascii(v)]"
                 # No external fact needed: equality of len(v) bytes means every input byte either equals a non-ASCII
                 # byte of v exactly (to_ascii_lowercase only changes A-Z) or is ASCII where v is ASCII; v is a valid
                 # &str, so the input prefix ends where a character of v ends, i.e. on a boundary of the (valid) input.
@@ -165,8 +190,11 @@ class LenProof:
                     c = as_u8(y)
                     if c is not None and is_byte0(x, S):
                         return ("plain", c)
-                    if c is not None and is_call(x, "to_ascii_lowercase") and len(x[2]) == 1 and is_byte0(x[2][0], S):
-                        return ("lower", c)
+                    if c is not None:
+                        # f(byte0) == c as u8 for a high-bit-preserving f
+                        for sub in walk(x):
+                            if is_byte0(sub, S) and highbit_preserving(x, sub):
+                                return ("lower", c)
                 return None
             found = None
             for (e, tv, d) in self.atoms:
@@ -182,7 +210,7 @@ class LenProof:
                         return True, "advance(1): byte0 == c as u8 with c.is_ascii()"
                     return False, "advance(1): byte0 == %s as u8 but %s is not proven ASCII" % (mir.show(c), mir.show(c))
                 self.external.append(("Ascii", mir.show(c)))
-                return True, "advance(1): to_ascii_lowercase(byte0) == c as u8 [needs Ascii(c)]"
+                return True, "advance(1): f(byte0) == c as u8 for a high-bit-preserving fold f [needs Ascii(c)]"
             # range
             lo = hi = None
             for (e, tv, d) in self.atoms:
